@@ -107,7 +107,7 @@ type tcase struct {
 var iqEntries = []string{"SendIQ", "SendIQElement", "EncodeIQ", "EncodeIQElement", "UnmarshalIQ", "UnmarshalIQElement", "IterIQ", "IterIQElement"}
 var msgEntries = []string{"SendMessage", "SendMessageElement", "EncodeMessage"}
 var presEntries = []string{"SendPresence", "SendPresenceElement", "EncodePresence"}
-var scenarios = []string{"normal", "normal", "twice", "wrongkind", "unknownid", "late", "never", "handoff", "handoff", "reqwait", "pre", "afterdelivery"}
+var scenarios = []string{"normal", "normal", "twice", "wrongkind", "unknownid", "late", "never", "handoff", "handoff", "reqwait", "pre", "afterdelivery", "collide"}
 
 func genCase(t *rapid.T) tcase {
 	tc := tcase{s2s: rapid.Bool().Draw(t, "s2s")}
@@ -547,6 +547,21 @@ func check(t interface {
 				cleanup()
 				return
 			}
+		case "collide":
+			// the peer sends a REQUEST of its own that happens to carry the id of
+			// our pending request (ids are only unique per sender): it is not our
+			// answer, it goes to the handler (and is answered), then the real
+			// answer arrives
+			onWire(r)
+			if r.kind == "iq" {
+				feed("iq", rapid_req(r.k), r.id(), r.k, "handler")
+			} else {
+				feed(r.kind, "chat", r.id(), r.k, "handler")
+			}
+			if !deliver(r) {
+				cleanup()
+				return
+			}
 		case "unknownid":
 			onWire(r)
 			feed(r.kind, replyType(r), "zzz"+r.id(), -1, "handler")
@@ -701,12 +716,19 @@ func check(t interface {
 			if r.gotResp || r.err == nil {
 				fail("req %s (%s) must end with its context's error, got resp=%v err=%v", r.id(), r.scen, r.gotResp, r.err)
 			}
-		case "normal", "twice", "wrongkind", "unknownid", "afterdelivery":
+		case "normal", "twice", "wrongkind", "unknownid", "afterdelivery", "collide":
 			if !r.gotResp {
 				fail("req %s (%s) must receive its reply, got err=%v", r.id(), r.scen, r.err)
 			}
 		}
 	}
+}
+
+func rapid_req(k int) string {
+	if k%2 == 0 {
+		return "get"
+	}
+	return "set"
 }
 
 func firstUnseenErrFor(feds []*fed, hl *handlerLog, r *request, f *fed) bool {
